@@ -19,6 +19,17 @@ CHECKS = {
              "symbol-preserving versions (listed in evidence); float rounding and RateExpr parameters other than plain/named mass "
              "action are outside (C16)",
         technique=Z, ref="DESIGN.md section 5 C03"),
+    "C05": dict(
+        engine="Z+S", category="other",
+        text="bounded symbolic verification: (Z) ReactionSystem construction runs on symbolic compositions and coefficients; on every path "
+             "z3 proves accepted <=> every key balanced in every reaction, the ValueError names a really violated key, the reported "
+             "composition vectors equal the compositions (also after a query/sort/query history) and B*(N^T r)=0 for arbitrary reaction "
+             "rates r; (S) on generated systems the real get_odesys/linear_dependencies pipeline runs in sympy mode and z3 (LRA) proves "
+             "each offered elimination from B*y=B*y0 and that it is a genuine elimination",
+        note="compositions/coefficients range over real intervals containing the integer inputs (3 substances, keys {0,1,8}, <=3 reactions); "
+             "Reaction.string stubbed on instances (message formatting); 'numerical integration keeps invariants to tolerance' is delegated "
+             "to LSODA/CVODE and not claimed; one known finding (circular eliminations for >=2 preferred substances)",
+        technique=Z + "; sympy->z3 translation validation of the generated eliminations (z3 LRA)", ref="DESIGN.md section 5 C05"),
     "C17": dict(
         engine="Z", category="other",
         text="bounded symbolic verification: the seven real closed-form functions are executed on z3-backed dual numbers (value and "
